@@ -2,7 +2,7 @@
 
 Tie: CTL.modelcheck vs the Lean model `CTL.check` (PMC/Model/CTL.lean): exhaustive small scope + seeded random.
 """
-from common import all_structures, proof_coverage, random_structure, rng_for
+from common import all_structures, big_structure, proof_coverage, random_structure, rng_for
 from checks import mc_common
 from gen import formulas as F
 from theorems import get
@@ -38,6 +38,13 @@ def cases_for(res, rng):
     for i in range(nrand):
         K = random_structure(rng, 6)
         cases.append((K, F.rand_ctl(rng, rng.choice([2, 3, 3, 4])), 'text' if i % 4 == 0 else 'obj'))
+    # scale: larger structures, deeper formulas, wide n-ary operators
+    for i in range(400 if quick else 4000):
+        K = big_structure(rng, 7, 14)
+        t = F.rand_ctl(rng, rng.choice([4, 5, 6]))
+        if i % 5 == 0:
+            t = (rng.choice(['and', 'or']),) + tuple(F.rand_ctl(rng, 2) for _ in range(rng.choice([5, 6, 8])))
+        cases.append((K, t, 'text' if i % 4 == 0 else 'obj'))
     return cases, n_exh
 
 
